@@ -33,7 +33,11 @@ func genC19() {
 			if len(ce.Args) > 0 {
 				// only the selected field is recorded (renaming a local must not matter)
 				arg := "_"
-				if se, ok := ce.Args[0].(*ast.SelectorExpr); ok {
+				which := ce.Args[0]
+				if name == "os.Rename" {
+					which = ce.Args[len(ce.Args)-1] // the destination is what matters
+				}
+				if se, ok := which.(*ast.SelectorExpr); ok {
 					arg = se.Sel.Name
 				}
 				firstArgs = append(firstArgs, name+"("+arg+")")
